@@ -85,17 +85,26 @@ Qed.
 
 Lemma ns_matcher_sem (l : list str) (p : pkt) :
   m_match (b_iq_namespaces l) p = true <->
-  exists a ns any, p = PIQ a (Some ns) any /\ In ns (map lower l).
+  exists a ns any n, p = PIQ a ns any /\ iq_namespace ns any = Some n /\ In n l.
 Proof.
-  unfold b_iq_namespaces. cbn [m_match]. destruct p as [a|a|a [ns|] any|k].
-  - split; [discriminate|]. intros [a' [ns' [any' [H _]]]]. discriminate.
-  - split; [discriminate|]. intros [a' [ns' [any' [H _]]]]. discriminate.
-  - rewrite in_arr_In. split.
-    + intros H. exists a, ns, any. split; [reflexivity | exact H].
-    + intros [a' [ns' [any' [H Hin]]]]. injection H as Ha Hn Hy. subst. exact Hin.
-  - split; [discriminate|]. intros [a' [ns' [any' [H _]]]]. discriminate.
-  - split; [discriminate|]. intros [a' [ns' [any' [H _]]]]. discriminate.
+  unfold b_iq_namespaces. cbn [m_match]. destruct p as [a|a|a ns any|k].
+  - split; [discriminate|]. intros [a' [ns' [any' [n [H _]]]]]. discriminate.
+  - split; [discriminate|]. intros [a' [ns' [any' [n [H _]]]]]. discriminate.
+  - destruct (iq_namespace ns any) as [n|] eqn:E.
+    + rewrite in_arr_In. split.
+      * intros H. exists a, ns, any, n. split; [reflexivity|]. split; [exact E | exact H].
+      * intros [a' [ns' [any' [n' [H [Hn Hin]]]]]]. injection H as Ha Hs Hy. subst.
+        rewrite E in Hn. injection Hn as Hn. subst. exact Hin.
+    + split; [discriminate|]. intros [a' [ns' [any' [n' [H [Hn _]]]]]].
+      injection H as Ha Hs Hy. subst. rewrite E in Hn. discriminate.
+  - split; [discriminate|]. intros [a' [ns' [any' [n [H _]]]]]. discriminate.
 Qed.
+
+(* the payload namespace: the typed payload's, else the generic node's *)
+Lemma iq_namespace_def :
+  (forall n any, iq_namespace (Some n) any = Some n) /\
+  (forall any, iq_namespace None any = any).
+Proof. split; reflexivity. Qed.
 
 (* what the matchers look at *)
 Lemma kind_name_def :
@@ -222,8 +231,36 @@ Qed.
 Lemma route_not_pending (t : table) (pend : list str) (p : pkt) :
   pending_hit pend p = false -> do_route t pend p = (route_ordinary t p, pend).
 Proof.
-  unfold pending_hit, do_route. destruct p as [a|a|a ns any|k]; try reflexivity.
+  unfold do_route. destruct p as [a|a|a ns any|k]; try reflexivity.
   intros H. rewrite H. reflexivity.
+Qed.
+
+Lemma is_response_iff (ty : str) : is_response ty = true <-> ty = s_result \/ ty = s_error.
+Proof.
+  unfold is_response. rewrite orb_true_iff, !str_eqb_eq. tauto.
+Qed.
+
+Lemma pending_hit_iff (pend : list str) (p : pkt) :
+  pending_hit pend p = true <->
+  exists a ns any, p = PIQ a ns any /\ (a_type a = s_result \/ a_type a = s_error) /\ In (a_id a) pend.
+Proof.
+  unfold pending_hit. destruct p as [a|a|a ns any|k].
+  - split; [discriminate|]. intros [a' [ns' [any' [H _]]]]. discriminate.
+  - split; [discriminate|]. intros [a' [ns' [any' [H _]]]]. discriminate.
+  - destruct (is_response (a_type a)) eqn:E.
+    + apply is_response_iff in E. rewrite in_arr_In. split.
+      * intros H. exists a, ns, any. split; [reflexivity|]. split; assumption.
+      * intros [a' [ns' [any' [H [_ Hin]]]]]. injection H as Ha Hs Hy. subst. exact Hin.
+    + split; [discriminate|]. intros [a' [ns' [any' [H [Ht _]]]]]. injection H as Ha Hs Hy. subst.
+      apply is_response_iff in Ht. rewrite Ht in E. discriminate.
+  - split; [discriminate|]. intros [a' [ns' [any' [H _]]]]. discriminate.
+Qed.
+
+(* a request is never taken for the response to one of our own requests *)
+Lemma request_not_pending (pend : list str) (a : attrs) (ns any : option str) :
+  a_type a = s_get \/ a_type a = s_set -> pending_hit pend (PIQ a ns any) = false.
+Proof.
+  intros [H|H]; unfold pending_hit; rewrite H; reflexivity.
 Qed.
 
 Lemma route_pending (t : table) (pend : list str) (p : pkt) :
@@ -231,9 +268,9 @@ Lemma route_pending (t : table) (pend : list str) (p : pkt) :
   exists a ns any, p = PIQ a ns any /\ In (a_id a) pend /\
     do_route t pend p = ([EDeliver a], remove_id (a_id a) pend).
 Proof.
-  unfold pending_hit, do_route. destruct p as [a|a|a ns any|k]; try discriminate.
-  intros H. exists a, ns, any. rewrite H. split; [reflexivity|].
-  split; [apply in_arr_In; exact H | reflexivity].
+  intros H. pose proof H as H'. apply pending_hit_iff in H' as [a [ns [any [E [_ Hin]]]]].
+  exists a, ns, any. subst. split; [reflexivity|]. split; [exact Hin|].
+  unfold do_route. rewrite H. reflexivity.
 Qed.
 
 Lemma remove_id_spec (id : str) (pend : list str) (x : str) :
